@@ -62,6 +62,34 @@ def run_cli(data, workdir, pattern, quiet=True):
     return rc, out.getvalue(), sorted(files)
 
 
+def expected_raw_bytes(pic, vp, pcm):
+    """The documented .raw layout (docs user_guide/file_format.rst), computed here: planar Y, C1,
+    C2 in raster order; each sample an unsigned little-endian integer in the smallest
+    power-of-two number of bytes holding the component's depth."""
+    out = bytearray()
+    for comp, exc in (("Y", vp["luma_excursion"]), ("C1", vp["color_diff_excursion"]), ("C2", vp["color_diff_excursion"])):
+        depth = max(1, int(exc).bit_length())  # = intlog2(excursion + 1)
+        nbytes = 1
+        while nbytes * 8 < depth:
+            nbytes *= 2
+        for row in pic[comp]:
+            for v in row:
+                out += int(v).to_bytes(nbytes, "little")
+    return bytes(out)
+
+
+def expected_error_offset(v):
+    """The bit offset the decoder itself nominates for the error: the exception's offending
+    offset if it names one, else the validator's read position when it failed."""
+    from vc2_conformance.decoder import tell
+    from vc2_conformance.bitstream.io import to_bit_offset
+
+    off = v.exc.offending_offset()
+    if off is None:
+        off = to_bit_offset(*tell(v.state))
+    return off
+
+
 def to_lists(a):
     return [[int(v) for v in row] for row in a]
 
@@ -102,6 +130,10 @@ def check_input(data, workdir, pattern="picture_%d.raw", quiet=True):
                 return "conformant", ["written picture %d differs from the decoder's output" % i]
             if dict(rvp) != dict(vp) or int(rpcm) != int(pcm):
                 return "conformant", ["written metadata of picture %d differs" % i]
+            with open(os.path.join(workdir, stem % (i,) + ".raw"), "rb") as f:
+                raw = f.read()
+            if raw != expected_raw_bytes(pic, vp, pcm):
+                return "conformant", ["raw file of picture %d (%d bytes) is not the documented planar layout of the decoder's output (%d bytes expected)" % (i, len(raw), len(expected_raw_bytes(pic, vp, pcm)))]
         return "conformant", []
     if v.kind == "reject":
         if rc != 2:
@@ -110,6 +142,12 @@ def check_input(data, workdir, pattern="picture_%d.raw", quiet=True):
         if not m:
             problems.append("no located explanation in the output")
         else:
+            want_off = expected_error_offset(v)
+            if int(m.group(1)) != want_off:
+                problems.append("explanation located at bit offset %s, the decoder nominates %d (%s)" % (m.group(1), want_off, v.label))
+            hint = stdout.split("Suggested bitstream viewer commands")[-1].split("Pseudocode traceback")[0]
+            if "{offset}" in v.exc.bitstream_viewer_hint() and not re.search(r"(?<!\d)%d(?!\d)" % want_off, hint):
+                problems.append("viewer hint does not point at the nominated offset %d (%s)" % (want_off, v.label))
             parts = stdout.split("Details\n-------")
             summary = parts[0].split("\n", 2)[2].strip() if len(parts) > 1 else ""
             if not summary:
@@ -129,6 +167,8 @@ def conformant_inputs(tier):
         out.append(("enc", c))
     for g, c in encspace.groups(tier):
         if g in ("G1", "G2") and (tier == "thorough" or (hash_stable(c) % 6 == 0)):
+            out.append(("enc", c))
+        if g == "G3" and (tier == "thorough" or (hash_stable(c) % 3 == 0) or c["luma_excursion"].bit_length() != c["color_diff_excursion"].bit_length()):
             out.append(("enc", c))
     return out
 
